@@ -1,9 +1,10 @@
-"""C16 (clause: signed wrappers of the wide arithmetic, given contract U of the unsigned kernels).
+"""C16: wide arithmetic - signed wrappers, rounding helpers and the unsigned kernels including Knuth's algorithm D.
 
 S  i128_shifted_div_mod_floor(x, p, y) / i256_div_mod_floor(x1, x2, y): Some((q, r)) with q*y + r = x*10^p (x1*x2),
    r in [0, y) for y > 0 (resp. (y, 0] for y < 0), None only if |floor quotient| > i128::MAX.
 W  i128_shifted_div_rounded / i128_mul_div_ten_pow_rounded = RoundSpec(mode, N/D) or None iff it does not fit.
-The multiword kernels u128_mul_u128 and u256_idiv_u128 are replaced by their contract (U) - NOT decided here.
+U  u128_mul_u128, u256_idiv_u64 and the dispatch in u256_idiv_u128 are proved against the summaries (U) used for S and W;
+   u256_idiv_u128_special (Knuth D) is proved per normalisation shift against the summary U' the dispatch proof uses.
 """
 from ..absint import Interp, Opts, Agg, Int, K, OPTION, NEG, ZERO, POS, NONNEG, NONPOS
 from ..harness import (M, show_outcome, show_poly, get_db, run_jobs, opt_parts, poly_eq)
@@ -158,9 +159,134 @@ def job_wide_rounded(db, job):
     return [('W-WIDE-ROUNDED', cell, not bad, '; '.join(bad[:3]) or 'paths=%d' % len(outs), span_str(fn.get('span')) if bad else None)]
 
 
+SPECIAL = 'fpdec_core::u256_idiv_u128_special'
+TWO128 = 2**128
+
+
+def summ_special(I, st, args, fid):
+    """(U', proved by the 'special' cells) u256_idiv_u128_special(&mut xh, &mut xl, y) with *xh < y: (*xh, *xl) := (0, Q), returns r, where
+    xh*2^128 + xl = Q*y + r, 0 <= r < y (so Q < 2^128).  The precondition is an obligation at every call site."""
+    from ..absint import Stop
+    from ..rounding import _deref
+    rh, rl, y = args
+    xh, xl = _deref(I, st, rh), _deref(I, st, rl)
+    if not st.sign(padd(xh.p, y.p, -1)) <= NEG:
+        raise Stop("contract U': precondition *xh < y of u256_idiv_u128_special not established at the call site")
+    W = st.norm(padd(pscale(xh.p, TWO128), xl.p))
+    Q = I.tdiv_atom(st, W, st.norm(y.p))
+    R = st.norm(padd(W, pmul(Q, st.norm(y.p)), -1))
+    q = I.mk(st, 'u128', Q, 0, TWO128 - 1)
+    for ref, val in ((rh, K(0, 'u128')), (rl, q)):
+        tf = I.frame_of(st, ref.frame)
+        tf.L[ref.local] = I.updated(st, tf, tf.L.get(ref.local), list(ref.proj), val)
+    return I.mk(st, 'u128', R, 0, None)
+
+
+def job_kernel(db, job):
+    """the unsigned kernels themselves: schoolbook multiplication, short division and the dispatch of the long division"""
+    from ..absint import ByRef
+    _, which, ycls = job
+    bad = []
+    if which == 'mul':
+        fn = core_fn(db, 'fpdec_core::u128_mul_u128')
+        I = Interp(db, Opts())
+        st = I.new_state()
+        x, y = st.sym('x', 0, TWO128 - 1, 'u128'), st.sym('y', 0, TWO128 - 1, 'u128')
+        I.call_root(st, fn, [x, y])
+        outs = I.explore(st)
+        for o in outs:
+            s = o.state
+            if o.kind != 'ret' or not (isinstance(o.value, Agg) and len(o.value.fields) == 2):
+                bad.append(show_outcome(o)[:300])
+                continue
+            rh, rl = o.value.fields
+            if not poly_eq(s, padd(pscale(rh.p, TWO128), rl.p), pmul(x.p, y.p)):
+                bad.append('hi*2^128 + lo != x*y: hi=%s lo=%s' % (show_poly(s, rh.p)[:200], show_poly(s, rl.p)[:200]))
+    elif which == 'special':
+        # Knuth's algorithm D (4-by-2 words), one cell per normalisation shift n = 127 - msb(y): the shifts are then concrete,
+        # the two quotient-digit loops unroll (at most two corrections each, decided by intervals).  Products of unknowns are
+        # handled by the opt-in tactics of absint (multiplier saturation, relational quotient bounds, polyhedral bounds over
+        # monomials by an exact dual simplex) - every one a sound inference; no position-dependent hint is supplied.
+        from ..poly import patoms
+        n = ycls
+        fn = core_fn(db, SPECIAL)
+        I = Interp(db, Opts(max_paths=4000))
+        st = I.new_state()
+        st.decomp_depth = 1
+        y = st.sym('y', 2 ** (127 - n), 2 ** (128 - n) - 1, 'u128')
+        xh = st.sym('xh', 0, 2 ** (128 - n) - 2, 'u128') if n < 127 else K(0, 'u128')
+        xl = st.sym('xl', 0, TWO128 - 1, 'u128')
+        st.assume(padd(xh.p, y.p, -1), NEG)          # precondition *xh < y
+        st.tactics = {'mult': sorted(patoms(y.p)), 'relb': [pscale(y.p, 2 ** n)], 'lp': 1}
+        I.call_root(st, fn, [ByRef(xh), ByRef(xl), y])
+        outs = I.explore(st)
+        X = padd(pscale(xh.p, TWO128), xl.p)
+        for o in outs:
+            s = o.state
+            if o.kind != 'ret' or not isinstance(o.value, Int):
+                bad.append(show_outcome(o)[:300])
+                continue
+            qh, ql = s.frames[0].L.get(100), s.frames[0].L.get(101)
+            if not (isinstance(qh, Int) and isinstance(ql, Int)):
+                bad.append('quotient words lost: %r %r' % (qh, ql))
+                continue
+            r = o.value
+            if s.itv(qh) != (0, 0):
+                bad.append('*xh is not set to 0')
+            elif not poly_eq(s, padd(pmul(ql.p, y.p), r.p), X):
+                bad.append('ql*y + r != xh*2^128 + xl: ql=%s r=%s' % (show_poly(s, ql.p)[:150], show_poly(s, r.p)[:150]))
+            elif not (s.sign(r.p) <= NONNEG and s.sign(padd(r.p, y.p, -1)) <= NEG):
+                bad.append('0 <= r < y not established: r=%s' % show_poly(s, r.p)[:200])
+        ycls = 'n=%d' % n
+    else:
+        if which == 'div64':
+            fn = core_fn(db, 'fpdec_core::u256_idiv_u64')
+            opts = Opts()
+            yr = (1, 2**64 - 1, 'u64')
+        else:
+            fn = core_fn(db, 'fpdec_core::u256_idiv_u128')
+            opts = Opts(summaries={SPECIAL: summ_special})
+            yr = {'short': (1, 2**64 - 1, 'u128'), 'long': (2**64, TWO128 - 1, 'u128')}[ycls]
+        I = Interp(db, opts)
+        st = I.new_state()
+        xh, xl = st.sym('xh', 0, TWO128 - 1, 'u128'), st.sym('xl', 0, TWO128 - 1, 'u128')
+        y = st.sym('y', *yr)
+        I.call_root(st, fn, [ByRef(xh), ByRef(xl), y])
+        outs = I.explore(st)
+        X = padd(pscale(xh.p, TWO128), xl.p)
+        for o in outs:
+            s = o.state
+            if o.kind != 'ret' or not isinstance(o.value, Int):
+                bad.append(show_outcome(o)[:300])
+                continue
+            qh, ql = s.frames[0].L.get(100), s.frames[0].L.get(101)
+            if not (isinstance(qh, Int) and isinstance(ql, Int)):
+                bad.append('quotient words lost: %r %r' % (qh, ql))
+                continue
+            r = o.value
+            if not poly_eq(s, padd(pmul(padd(pscale(qh.p, TWO128), ql.p), y.p), r.p), X):
+                bad.append('(qh*2^128 + ql)*y + r != xh*2^128 + xl: qh=%s ql=%s r=%s' % (show_poly(s, qh.p)[:150], show_poly(s, ql.p)[:150], show_poly(s, r.p)[:150]))
+            elif not (s.sign(r.p) <= NONNEG and s.sign(padd(r.p, y.p, -1)) <= NEG):
+                bad.append('0 <= r < y not established: r=%s' % show_poly(s, r.p)[:200])
+    if not outs:
+        bad.append('no path')
+    cell = which + ((';' + ycls) if which == 'special' else (';y=' + ycls) if ycls else '')
+    return [('U-KERNEL', cell, not bad, '; '.join(bad[:3]) or 'paths=%d' % len(outs), span_str(fn.get('span')) if bad else None)]
+
+
+KERNEL_JOBS = [('U', 'mul', None), ('U', 'div64', None), ('U', 'dispatch', 'short'), ('U', 'dispatch', 'long')]
+SPECIAL_QUICK = (0, 1, 2, 31, 62, 63, 64, 65, 100, 126, 127)
+
+
+def kernel_jobs(tier, dep=False):
+    """the proofs of the unsigned kernels; Knuth-D per normalisation shift (all 128 in the thorough tier)"""
+    ns = (0, 3, 63) if dep else (range(128) if tier == 'thorough' else SPECIAL_QUICK)
+    return KERNEL_JOBS + [('U', 'special', n) for n in ns]
+
+
 def run_job(job):
     db = get_db()
-    return {'S': job_floor_wide, 'W': job_wide_rounded}[job[0]](db, job)
+    return {'S': job_floor_wide, 'W': job_wide_rounded, 'U': job_kernel}[job[0]](db, job)
 
 
 def run(rep, tier):
@@ -185,23 +311,35 @@ def run(rep, tier):
                         jobs.append(('W', 'shifted', p, mode, via_none, sx, sy, None))
                     for s2 in ('neg', 'pos'):
                         jobs.append(('W', 'muldiv', p, mode, via_none, sx, None, s2))
+    kj = kernel_jobs(tier)
+    jobs = kj + jobs         # the long cells first
     run_jobs(rep, __name__, jobs)
+    rep.floor('U-KERNEL', len(kj))
     rep.floor('S-WIDE-FLOOR', 6 * len(ps) + 9)
     rep.floor('W-WIDE-ROUNDED', 16 * len(wps) * 6)
-    # the callers' precondition of i256_div_mod_floor (y > 0) and who may call the U kernels
-    ukern = ('fpdec_core::u128_mul_u128', 'fpdec_core::u256_idiv_u128')
-    wrappers = ('fpdec_core::i128_shifted_div_mod_floor', 'fpdec_core::i256_div_mod_floor')
+    # who may call the unsigned kernels (their contracts' preconditions are established at exactly these call sites)
+    may_call = {'fpdec_core::u128_mul_u128': ('fpdec_core::i128_shifted_div_mod_floor', 'fpdec_core::i256_div_mod_floor'),
+                'fpdec_core::u256_idiv_u128': ('fpdec_core::i128_shifted_div_mod_floor', 'fpdec_core::i256_div_mod_floor'),
+                'fpdec_core::u256_idiv_u64': ('fpdec_core::u256_idiv_u128',),
+                SPECIAL: ('fpdec_core::u256_idiv_u128',)}
     for f in db.fns.values():
+        ordn = {}
         for bi, t, blk in mir.iter_calls(f):
             fid, path, _ = mir.callee(t)
-            if fid in ukern:
-                rep.ob('R-WHO-CALLS-U', '%s;calls;%s' % (f['id'], fid), f['id'] in wrappers,
-                       'the unsigned 256-bit kernels may only be reached through the two signed wrappers analysed here', site=span_str(blk.get('tspan')))
-    rep.floor('R-WHO-CALLS-U', 4)
-    rep.assume('CONTRACT U (assumed, NOT decided by this check): u128_mul_u128(x,y) returns (hi,lo) with hi*2^128+lo = x*y; u256_idiv_u128 replaces (xh,xl) by the quotient '
-               'of the 256-bit value by y > 0 and returns the remainder < y. The schoolbook multiplication and the Knuth-D division themselves are outside the reach of the abstract domains.')
-    rep.explanation = ('Clause decided: the two signed wrappers and the two wide rounding helpers, with the unsigned multiword kernels replaced by their contract U. '
+            if fid in may_call:
+                ordn[fid] = ordn.get(fid, 0) + 1
+                rep.ob('R-WHO-CALLS-U', '%s;calls;%s#%d' % (f['id'], fid, ordn[fid]), f['id'] in may_call[fid],
+                       'the unsigned 256-bit kernels may only be reached through the callers analysed here', site=span_str(blk.get('tspan')))
+    rep.floor('R-WHO-CALLS-U', 7)
+    rep.assume("no contract is left assumed: summary U' of u256_idiv_u128_special (*xh < y: (*xh, *xl) := (0, Q), returns r, xh*2^128 + xl = Q*y + r, 0 <= r < y), used by the dispatch proof, "
+               'is itself proved per normalisation shift (U-KERNEL special;n=..); its precondition is established at both call sites. That the proved postconditions determine the '
+               'summaries used by the callers (Q = floor(X / y)) is the uniqueness of Euclidean division.')
+    rep.explanation = ('Clause decided: the two signed wrappers and the two wide rounding helpers over the summaries U of the unsigned kernels, and those summaries themselves (U-KERNEL: the 128x128 schoolbook '
+                       'multiplication, the 256/64 short division and the dispatch of the 256/128 division are interpreted with symbolic words and satisfy their defining identities; Knuth\'s algorithm D (u256_idiv_u128_special) is proved per normalisation shift n = 127 - msb(y) - all 128 '
+                       'in the thorough tier - with both quotient-digit loops unrolled: no panic edge (overflow checks, debug_assert) and ql*y + r = xh*2^128 + xl, 0 <= r < y, *xh = 0 on every path; '
+                       'products of unknowns are handled by sound opt-in tactics: multiplier saturation of branch facts, relational quotient bounds, wrapping results tracked modulo 2^128, and '
+                       'polyhedral bounds over monomials from an exact, self-certifying dual simplex). '
                        'Per cell (shift p, signs of the operands [, mode]) the MIR is interpreted with symbolic operands: Some((q, r)) paths must satisfy q*y + r = N exactly as polynomials '
                        'and the remainder range for the divisor\'s sign - including exact divisions; None paths must imply |N| >= 2^127*|y|; the rounded helpers must equal '
                        'RoundSpec(mode, N/D) by the same fact-based oracle as C05 and must not have a panic edge.')
-    rep.trust('rustc nightly MIR; absint transfer functions; contract U (see assumptions)')
+    rep.trust('rustc nightly MIR; absint transfer functions incl. the opt-in non-linear tactics and fpsa/lp.py (every LP bound is re-checked as a certificate); uniqueness of Euclidean division')
